@@ -190,8 +190,8 @@ CLAIMS = {
              "instance built from it), c11_count (no instance twice). Correspondence: heads with variables, object- and "
              "value-valued attribute expressions, falsy constants; bodies with and/or/not/predicates; ambient none/query/rule; "
              "caching on/off; twice; multiset of (class, field identities); the head's nested constructor argument also written "
-             "as a body condition (one object), for half of those as the only one, after an abandoned evaluation (where known "
-             "finding C04-F1 is reproduced and attributed: cache on, nothing returned, the cache-off twin right).",
+             "as a body condition (one object), for half of those as the only one, after an abandoned evaluation (the stream that found "
+             "the defect R40, repaired in /repo 45ff10d; its witness is re-run from corpus/ on every run).",
         note=BASE_NOTE + "Object reuse (no copying) is a frame property of the model; on the implementation fields are compared by "
              "dataset identity. type.__call__/dataclass construction is trusted.",
         tech="Lean 4 proof (reduction to C02 + closed-argument lemma) + differential correspondence"),
